@@ -17,7 +17,8 @@
 (* bs1>> the block sizes of link i.                                        *)
 (*                                                                         *)
 (* The handle: [rs, link, ser, off, d, os, pos, hs, sk]  (hs: half-rate    *)
-(* flag, sk: seekable)                                                     *)
+(* flag, sk: seekable; solid: lapout's once-per-block flag; gk, gsh:      *)
+(* ghosts that say which samples the decoder holds)                        *)
 (*   rs    ready_state (2 OPENED, 3 STREAMSET, 4 INITSET)                  *)
 (*   link  current_link (1-based), ser current_serialno                    *)
 (*   off   pcm_offset                                                      *)
@@ -65,10 +66,13 @@ OsPop(os) == IF os.q = <<>> THEN os ELSE [os EXCEPT !.q = Tail(@), !.pno = @ + 1
 NextPage(PG, vf) == LET q == PageAt(PG, vf.pos) IN IF q = 0 THEN [r |-> 0, pos |-> DataEnd(PG)] ELSE [r |-> q, pos |-> PG[q].off + PG[q].len]
 
 DecodeClear(vf) == [vf EXCEPT !.rs = OPENED]
-MakeReady(BL, vf) == IF vf.rs # STREAMSET THEN vf ELSE [vf EXCEPT !.rs = INITSET, !.d = BK!DecRestart(BL[vf.link], vf.hs)]
-Restart(BL, vf) == IF vf.rs = INITSET THEN [vf EXCEPT !.d = BK!DecRestart(BL[vf.link], vf.hs)] ELSE vf           \* vorbis_synthesis_restart does nothing on a cleared state
+MakeReady(BL, vf) == IF vf.rs # STREAMSET THEN vf ELSE [vf EXCEPT !.rs = INITSET, !.d = BK!DecRestart(BL[vf.link], vf.hs), !.solid = FALSE, !.gsh = 0]
+Restart(BL, vf) == IF vf.rs = INITSET THEN [vf EXCEPT !.d = [BK!DecRestart(BL[vf.link], vf.hs) EXCEPT !.lW = vf.d.lW, !.W = vf.d.W], !.solid = FALSE, !.gsh = 0] ELSE vf           \* vorbis_synthesis_restart does nothing on a cleared state
 
 (* _fetch_and_process_packet(vf, NULL, readp, spanp): [ret, vf] *)
+\* a page inside the current link (seekable handle: the link table says where it ends); the pinned tree took every BOS page of another serial number for
+\* the next link (vf.pinbos pins that rule)
+K_inlink(PG, LT, vf, p) == ~vf.pinbos /\ p.off >= LT[vf.link].off /\ p.off < LinkEnd(PG, LT, vf.link)
 \* streaming: _fetch_headers(vf, vi, vc, NULL, NULL, &og) with the page in hand (index cur), then on with the new link
 RECURSIVE StreamLink(_, _, _, _, _, _, _, _)
 \* (a streaming handle - sk = FALSE - knows no link table: it takes the next link from the headers it meets, LT only says which block sizes a serial
@@ -78,7 +82,7 @@ Fetch(PG, LT, BL, vf0, readp, spanp, fuel) ==
   IF fuel = 0 THEN [ret |-> -999, vf |-> vf0]
   ELSE
   LET bl == IF vf0.sk THEN vf0.link ELSE vf0.bl                             \* whose block sizes the decoder has (streaming: the link whose headers were read)
-      vf == IF vf0.rs # STREAMSET THEN vf0 ELSE [vf0 EXCEPT !.rs = INITSET, !.d = BK!DecRestart(BL[bl], vf0.hs)] IN
+      vf == IF vf0.rs # STREAMSET THEN vf0 ELSE [vf0 EXCEPT !.rs = INITSET, !.d = BK!DecRestart(BL[bl], vf0.hs), !.solid = FALSE, !.gsh = 0] IN
   IF vf.rs = INITSET /\ vf.os.q # <<>>
   THEN LET p == Head(vf.os.q)  no == vf.os.pno  v1 == [vf EXCEPT !.os = OsPop(@)] IN
        IF p.w = -1 THEN Fetch(PG, LT, BL, v1, readp, spanp, fuel - 1)                                      \* not audio: vorbis_synthesis refuses it, next packet
@@ -88,13 +92,14 @@ Fetch(PG, LT, BL, vf0, readp, spanp, fuel) ==
                         THEN IF vf.sk THEN Clamp0(p.g - LT[vf.link].first) - BK!ShlI(BK!DecAvail(d2), vf.hs) + SumLen(LT, vf.link - 1)
                              ELSE Clamp0(p.g) - BK!ShlI(BK!DecAvail(d2), vf.hs)
                         ELSE v1.off
-            IN [ret |-> 1, vf |-> [v1 EXCEPT !.d = d2, !.off = off2, !.gk = p.k]]
+            IN [ret |-> 1, vf |-> [v1 EXCEPT !.d = d2, !.off = off2, !.gk = p.k, !.solid = FALSE, !.gsh = 0]]
   ELSE IF ~readp THEN [ret |-> 0, vf |-> vf]
   ELSE LET n == NextPage(PG, vf) IN
        IF n.r = 0 THEN [ret |-> OV_EOF, vf |-> [vf EXCEPT !.pos = n.pos]]
        ELSE LET p == PG[n.r]  v1 == [vf EXCEPT !.pos = n.pos] IN
             IF vf.rs = INITSET /\ vf.ser # p.ser
-            THEN IF ~p.bos THEN Fetch(PG, LT, BL, v1, readp, spanp, fuel - 1)                               \* a multiplexed stream: next page
+            THEN IF ~p.bos \/ (vf.sk /\ K_inlink(PG, LT, vf, p))
+                 THEN Fetch(PG, LT, BL, v1, readp, spanp, fuel - 1)                                          \* a multiplexed stream (also its BOS page inside this link): next page
                  ELSE IF ~spanp THEN [ret |-> OV_EOF, vf |-> IF vf.sk THEN [vf EXCEPT !.pos = p.off] ELSE v1]    \* the page is put back (if the source can seek)
                  ELSE IF ~vf.sk THEN StreamLink(PG, LT, BL, DecodeClear(v1), n.r, readp, spanp, fuel)
                  ELSE LET v2 == DecodeClear(v1)  lk == LinkOfSerial(LT, p.ser) IN
@@ -124,7 +129,7 @@ ReadLoop(PG, LT, BL, vf, len, fuel) ==
   ELSE IF vf.rs = INITSET /\ BK!DecAvail(vf.d) > 0
   THEN LET m == IF BK!DecAvail(vf.d) > len THEN len ELSE BK!DecAvail(vf.d) IN
        [ret |-> m, vf |-> [vf EXCEPT !.d = BK!DecRead(@, m), !.off = @ + BK!ShlI(m, vf.hs)],
-        dl |-> [link |-> vf.link, k |-> vf.gk, j |-> vf.d.ret - vf.d.centerW, n |-> m, t0 |-> vf.off, hs |-> vf.hs]]
+        dl |-> [link |-> vf.link, k |-> vf.gk, j |-> vf.d.ret - vf.d.centerW - vf.gsh, n |-> m, t0 |-> vf.off, hs |-> vf.hs]]
   ELSE LET f == Fetch(PG, LT, BL, vf, TRUE, TRUE, 4 * Len(PG) + 8) IN
        IF f.ret = OV_EOF THEN [ret |-> 0, vf |-> f.vf, dl |-> NoDelivery]
        ELSE IF f.ret <= 0 THEN [ret |-> f.ret, vf |-> f.vf, dl |-> NoDelivery]
@@ -265,6 +270,55 @@ PcmSeek(PG, LT, BL, vf, target, K) ==
            a == Discard(PG, LT, BL, v1, 0, target, K, 4 * Len(PG) + 8) IN
        IF a.ret # 0 THEN a ELSE Drop(PG, LT, BL, a.vf, target, 8 * Len(PG) + 16)
 
+(* the lapped seeks: _ov_64_seek_lap / _ov_d_seek_lap around one of the plain seeks: [ret, vf].  The blend itself is float arithmetic and not here;
+   what is here is what the call does to the handle: samples taken for the lap before the seek, the buffer primed and consolidated after it *)
+RECURSIVE InitSet(_, _, _, _, _)
+InitSet(PG, LT, BL, vf, fuel) ==
+  IF fuel = 0 THEN [ret |-> -999, vf |-> vf]
+  ELSE IF vf.rs = INITSET THEN [ret |-> 0, vf |-> vf]
+  ELSE LET f == Fetch(PG, LT, BL, vf, TRUE, FALSE, 4 * Len(PG) + 8) IN IF f.ret < 0 THEN f ELSE InitSet(PG, LT, BL, f.vf, fuel - 1)
+RECURSIVE InitPrime(_, _, _, _, _)
+InitPrime(PG, LT, BL, vf, fuel) ==
+  IF fuel = 0 THEN [ret |-> -999, vf |-> vf]
+  ELSE IF vf.rs = INITSET /\ BK!DecAvail(vf.d) > 0 THEN [ret |-> 0, vf |-> vf]
+  ELSE LET f == Fetch(PG, LT, BL, vf, TRUE, FALSE, 4 * Len(PG) + 8) IN IF f.ret < 0 THEN f ELSE InitPrime(PG, LT, BL, f.vf, fuel - 1)
+Lapout(BL, vf) == LET r == BK!DecLapout(BL[vf.link], vf.d, vf.solid) IN
+                  [vf EXCEPT !.d = r.d, !.solid = r.solid, !.gsh = @ + (r.d.ret - r.d.centerW) - (vf.d.ret - vf.d.centerW)]
+RECURSIVE GetLap(_, _, _, _, _, _, _)
+GetLap(PG, LT, BL, vf, lapsize, lapcount, fuel) ==
+  IF fuel = 0 THEN [ret |-> -999, vf |-> vf]
+  ELSE IF ~(lapcount < lapsize) THEN [ret |-> 0, vf |-> vf]
+  ELSE LET have == IF vf.rs = INITSET THEN BK!DecAvail(vf.d) ELSE 0 IN
+       IF have > 0
+       THEN LET m == IF have > lapsize - lapcount THEN lapsize - lapcount ELSE have IN
+            GetLap(PG, LT, BL, [vf EXCEPT !.d = BK!DecRead(@, m), !.off = IF @ >= 0 THEN @ + BK!ShlI(m, vf.hs) ELSE @], lapsize, lapcount + m, fuel - 1)
+       ELSE LET f == Fetch(PG, LT, BL, vf, TRUE, FALSE, 4 * Len(PG) + 8) IN
+            IF f.ret = -999 THEN f
+            ELSE IF f.ret = OV_EOF THEN [ret |-> 0, vf |-> IF f.vf.rs = INITSET THEN Lapout(BL, f.vf) ELSE f.vf]          \* the rest comes from lapout
+            ELSE GetLap(PG, LT, BL, f.vf, lapsize, lapcount, fuel - 1)
+\* kind: "pcm" | "page" | "raw" | "einval"
+LapSeek(PG, LT, BL, vf, kind, arg, K) ==
+  LET a == InitSet(PG, LT, BL, vf, Len(PG) + 4) IN
+  IF a.ret # 0 THEN a
+  ELSE LET n1 == BK!ShrI(BL[a.vf.link][1] \div 2, a.vf.hs)
+           g == GetLap(PG, LT, BL, a.vf, n1, 0, 4 * Len(PG) + 16) IN
+       IF g.ret # 0 THEN g
+       ELSE LET s == IF kind = "pcm" THEN PcmSeek(PG, LT, BL, g.vf, arg, K) ELSE IF kind = "page" THEN PcmSeekPage(PG, LT, BL, g.vf, arg, K)
+                     ELSE IF kind = "raw" THEN RawSeek(PG, LT, BL, g.vf, arg) ELSE [ret |-> OV_EINVAL, vf |-> g.vf] IN          \* "einval": a time outside the stream
+            IF s.ret # 0 THEN s
+            ELSE LET p == InitPrime(PG, LT, BL, s.vf, Len(PG) + 4) IN
+                 IF p.ret # 0 THEN p ELSE [ret |-> 0, vf |-> Lapout(BL, p.vf)]
+
+(* ov_crosslap(vf1, vf2) on two different handles (each with its own file): [ret, vf1, vf2] *)
+Crosslap(PG1, LT1, BL1, vf1, PG2, LT2, BL2, vf2) ==
+  LET a == InitSet(PG1, LT1, BL1, vf1, Len(PG1) + 4) IN
+  IF a.ret # 0 THEN [ret |-> a.ret, vf1 |-> a.vf, vf2 |-> vf2]
+  ELSE LET p == InitPrime(PG2, LT2, BL2, vf2, Len(PG2) + 4) IN
+       IF p.ret # 0 THEN [ret |-> p.ret, vf1 |-> a.vf, vf2 |-> p.vf]
+       ELSE IF a.vf.hs # p.vf.hs THEN [ret |-> OV_EINVAL, vf1 |-> a.vf, vf2 |-> p.vf]
+       ELSE LET g == GetLap(PG1, LT1, BL1, a.vf, BK!ShrI(BL1[a.vf.link][1] \div 2, a.vf.hs), 0, 4 * Len(PG1) + 16) IN
+            [ret |-> IF g.ret = -999 THEN -999 ELSE 0, vf1 |-> g.vf, vf2 |-> Lapout(BL2, p.vf)]
+
 (* ov_halfrate(vf, flag) on a stream all of whose links accept it: [ret, vf] *)
 HalfRate(PG, LT, BL, vf, flag, K) ==
   LET reseek == vf.rs > STREAMSET
@@ -275,7 +329,7 @@ HalfRate(PG, LT, BL, vf, flag, K) ==
 
 (* the handle as _open_seekable2 leaves it: link table built, then ov_raw_seek(dataoffsets[0]) *)
 Opened(PG, LT, BL) ==
-  LET v0 == [rs |-> OPENED, link |-> 1, ser |-> LT[1].ser, off |-> -1, d |-> BK!DecRestart(BL[1], 0), os |-> OsReset(LT[1].ser), pos |-> 0, gk |-> 0, hs |-> 0, sk |-> TRUE, pinser |-> FALSE, bl |-> 1]
+  LET v0 == [rs |-> OPENED, link |-> 1, ser |-> LT[1].ser, off |-> -1, d |-> BK!DecRestart(BL[1], 0), os |-> OsReset(LT[1].ser), pos |-> 0, gk |-> 0, hs |-> 0, sk |-> TRUE, pinser |-> FALSE, pinbos |-> FALSE, bl |-> 1, solid |-> FALSE, gsh |-> 0]
   IN RawSeek(PG, LT, BL, v0, LT[1].doff)
 (* a streaming handle after ov_open_callbacks: the headers of the first link read, nothing else *)
 OpenedStreaming(PG, LT, BL) ==
@@ -284,5 +338,5 @@ OpenedStreaming(PG, LT, BL) ==
       h == FetchHeaders(PG, VS, [off |-> 0, base |-> 0, probes |-> <<>>], KS) IN
   IF ~h.ok THEN [ret |-> -132, vf |-> <<>>]
   ELSE [ret |-> 0, vf |-> [rs |-> STREAMSET, link |-> 1, ser |-> h.vser, off |-> 0, d |-> BK!DecRestart(BL[1], 0), os |-> [ser |-> h.vser, q |-> <<>>, pno |-> 3, fresh |-> FALSE],
-                           pos |-> h.rd.off, gk |-> 0, hs |-> 0, sk |-> FALSE, pinser |-> FALSE, bl |-> LinkOfSerial(LT, h.vser)]]
+                           pos |-> h.rd.off, gk |-> 0, hs |-> 0, sk |-> FALSE, pinser |-> FALSE, pinbos |-> FALSE, bl |-> LinkOfSerial(LT, h.vser), solid |-> FALSE, gsh |-> 0]]
 =============================================================================
